@@ -16,6 +16,7 @@ TRUSTED = [
     'tools/lockscan (go/ast walker, ~2700 lines): lock identity by name, cross-package calls not followed, function values conservative; its output is re-generated on every run and the acyclicity / order / guarded-by theorems are re-proved about it',
     'correspondence: lock-step engine harness/server/c17_common_test.go on the real userPanel + localManager(bolt) + API router + mux.Session/LimitedValve vs the extracted model (ocaml/c17_driver.ml, ExtrOcamlBasic only); "blocked on a lock" is read off runtime.Stack goroutine states; the dispatch operation of the seeded scenarios replays dispatcher.go:231-252 by direct calls, one replay (F5) drives the real dispatchConnection with a real client handshake and the schedule point dispatch.gotUser',
     'Go sync.Mutex / sync.RWMutex / sync/atomic have their documented semantics; bolt transactions are atomic',
+    "overlapped calls: the engine hands the real panel a wrapper around the real localManager (userPanel.Manager is an interface) that holds a scenario goroutine inside AuthenticateUser / AuthoriseNewSession / UploadStatus until the scenario releases it; 'the other caller is blocked until the first is released' is read off runtime.Stack goroutine states (a goroutine waiting for a mutex is not durably blocked for testing/synctest, so its barrier cannot be used for this); the model threads are stopped at the corresponding pcs D1 / D3 / M8 (coq/Model/PanelPark.v, extracted); Model/PanelSplit.v + Proofs/PanelSplit.v: small-step GetUser with the lock as a parameter (refines the atomic step when held, refuted when not)",
 ]
 ASSUMPTIONS = [
     'threads = any number of dispatch / CloseSession / TerminateActiveUser / updateUsageQueue / commitUpdate activations; traffic, session failures, admin writes and clock ticks interleave freely',
